@@ -47,7 +47,7 @@ try:
             s = a.old.join(parts[:a.count]) + a.new + a.old.join(parts[a.count:])
         open(p, "w").write(s)
     print(subprocess.run(["git", "-C", wt, "diff", "--stat"], capture_output=True, text=True).stdout.strip())
-    env = dict(os.environ, VERIF_REPO=wt)
+    env = dict(os.environ, VERIF_REPO=wt, VERIF_EVIDENCE_DIR="/tmp/vtmut_evidence")
     for prop in a.props.split(","):
         r = subprocess.run(["/verif/check", prop, "--tier", a.tier], env=env, capture_output=True, text=True)
         allout = [l for l in (r.stdout + r.stderr).strip().split("\n") if l.strip() and "Erfa" not in l and "warn(" not in l]
